@@ -256,3 +256,28 @@ int myth_scheduler_worker_init(int rank, int nw) {
 }
 
 #endif	/* EXPERIMENTAL_SCHEDULER */
+
+#ifdef MYTH_VERIF
+/* what an idle scheduler (or a thread waiting in a yield loop) can react to:
+   the fill state of every run queue and its own exit flag.
+   *local_nonempty    : the worker's own queue holds a thread
+   *others_nonempty   : some other worker's queue holds a thread */
+unsigned long myth_verif_idle_sig(int rank, int * local_nonempty,
+				  int * others_nonempty) {
+  unsigned long h = 1469598103934665603UL;
+  int i;
+  *local_nonempty = 0;
+  *others_nonempty = 0;
+  for (i = 0; i < g_attr.n_workers; i++) {
+    myth_thread_queue_t q = &g_envs[i].runnable_q;
+    int top = q->top, base = q->base;
+    h = (h ^ (unsigned long)(unsigned)top) * 1099511628211UL;
+    h = (h ^ (unsigned long)(unsigned)base) * 1099511628211UL;
+    if (top - base > 0) {
+      if (i == rank) *local_nonempty = 1; else *others_nonempty = 1;
+    }
+  }
+  h = (h ^ (unsigned long)(unsigned)g_envs[rank].exit_flag) * 1099511628211UL;
+  return h;
+}
+#endif
